@@ -278,6 +278,25 @@ def f45(x, helper_fn):
     return x
 
 
+WIDE = {"maxstring": 1000, "maxother": 1000}
+WIDE_REPR = mk_repr(WIDE)
+
+
+@icontract.require(lambda xs: all(len(x) < 5 for x in xs), a_repr=SMALL_REPR)
+def f46(xs):
+    return xs
+
+
+@icontract.require(lambda xs, lim: all(len(x) < lim for x in xs), a_repr=WIDE_REPR)
+def f47(xs, lim):
+    return xs
+
+
+@icontract.ensure(lambda result: all(k != v for k, v in result.items()), a_repr=SMALL_REPR)
+def f48(pairs):
+    return dict(pairs)
+
+
 def _long_string():
     return "".join(chr(ord("a") + (i * 7) % 26) for i in range(300))
 
@@ -331,5 +350,8 @@ CASES = [
     {"id": "c42", "fn": "f42", "args": [], "kwargs": {"nested": [[[[[[[1, 2, [3, [4, [5]]]]]]]]], list(range(70))]}},
     {"id": "c43", "fn": "f43", "args": [], "kwargs": {"names": {"delta", "alpha", "charlie", "bravo", "echo", "foxtrot", "golf", "hotel"}}},
     {"id": "c44", "fn": "f44", "args": [], "kwargs": {"table": {"q": 1, "b": 2, "m": 3, "a": 4, "z": 5}, "key": "k"}},
+    {"id": "c46", "fn": "f46", "args": [], "kwargs": {"xs": ["ab", _long_string(), "cd"]}, "a_repr": SMALL, "all_vars": {"x": _long_string()}},
+    {"id": "c47", "fn": "f47", "args": [], "kwargs": {"xs": ["ab", _long_string() + _long_string()], "lim": 10}, "a_repr": WIDE, "all_vars": {"x": _long_string() + _long_string()}},
+    {"id": "c48", "fn": "f48", "args": [], "kwargs": {"pairs": [("a", "b"), ("q" * 30, "q" * 30)]}, "a_repr": SMALL, "all_vars": {"k": "q" * 30, "v": "q" * 30}},
     {"id": "c45", "fn": "f45", "args": [], "kwargs": {"x": 123456789012345678901234567890, "helper_fn": helper}, "a_repr": SMALL, "hidden": ["helper_fn"]},
 ]
